@@ -8,6 +8,9 @@ import sys
 import warnings
 
 repo, fn, writer, mode, k, N = sys.argv[1], sys.argv[2], sys.argv[3], sys.argv[4], int(sys.argv[5]), int(sys.argv[6])
+BIG = N >= 100          # N = 100 + steps: large tensors (bond dimension 64) so that HDF5 itself flushes while writing
+N = N % 100
+BOND = 64 if BIG else 3
 sys.path.insert(0, repo)
 warnings.simplefilter("ignore")
 import numpy as np  # noqa: E402
@@ -57,8 +60,8 @@ P.FileProcessTensor.close = close
 if writer == "export":
     pt = P.SimpleProcessTensor(2, dt=0.1)
     for s in range(N):
-        a = 1 if s == 0 else 3
-        b = 1 if s == N - 1 else 3
+        a = 1 if s == 0 else BOND
+        b = 1 if s == N - 1 else BOND
         i, j, x, y = np.meshgrid(np.arange(a), np.arange(b), np.arange(4), np.arange(4), indexing="ij")
         pt.set_mpo_tensor(s, np.cos(1.0 + i + 2 * j + 3 * x + 5 * y + s) + 0j)
     pt.compute_caps()
